@@ -101,9 +101,12 @@ def _execute(record, root):
             de = float(np.abs(np.array(e["e_mo"][m]) - np.array(ref["e_mo"][m])).max())
             errsE.append(dE)
             for name, val, K in (("energy", dE, "K_E"), ("forces", dF, "K_F"), ("charges", dq, "K_q"), ("orbital-energies", de, "K_e")):
-                mx[name + "_over_tau"] = max(mx.get(name + "_over_tau", 0.0), val / tau)
+                # committed known finding (DESIGN section 6 item 48): the ANALYTICAL force evaluator is wrong for H-Cl under PM3
+                kf = name == "forces" and c.get("grad") == "analytical" and record["method"] == "PM3" and names[m] == "hcl"
+                if not kf:
+                    mx[name + "_over_tau"] = max(mx.get(name + "_over_tau", 0.0), val / tau)
                 if val > tol[K] * tau + tol["floor"]:
-                    failures.append(core.fail(f"path-dependent/{name}", f"{tag}: molecule {m} ({names[m]}): {name} differ from the reference solve (cold, diagonalisation, Pulay, eps 1e-11) of the same geometry by {val:.3e} (bound {tol[K] * tau:.3e}, tau={tau:.1e}); both report converged"))
+                    failures.append(core.fail(f"path-dependent/{name}", f"{tag}: molecule {m} ({names[m]}): {name} differ from the reference solve (cold, diagonalisation, Pulay, eps 1e-11) of the same geometry by {val:.3e} (bound {tol[K] * tau:.3e}, tau={tau:.1e}); both report converged", classify={"site": "analytical-gradient-pm3-hcl" if kf else "other"}))
         if c.get("grad"):
             stats["probes"][f"{c['grad']}_force_solves"] = stats["probes"].get(f"{c['grad']}_force_solves", 0) + 1
         if c["conv"][0] == 3:
@@ -159,6 +162,8 @@ class C04(core.Check):
         # record 3: the pinned session of known finding C04-pulay-batch-unstable-stationary-point (item 46): in the batch
         # [H2S, C2H4] at this orientation the cold-start Pulay solve (the reference path) lands H2S on the unstable stationary point
         recs[3] = {"batch": ["h2s", "c2h4"], "method": "AM1", "rotate": 1019240000, "seed": 123306448824, "i": 3, "ops": [{"op": "SOLVE", "cfg": {"eps": 1e-6, "conv": [1], "sp2": [False], "uhf": False}, "start": "cold", "cap": 1000}, {"op": "SOLVE", "cfg": {"eps": 1e-6, "conv": [2], "sp2": [False], "uhf": False}, "start": "cold", "cap": 1000}]}
+        # record 4: the pinned session of known finding C04-analytical-gradient-pm3-hcl (item 48)
+        recs[4] = {"batch": ["hcl"], "method": "PM3", "rotate": 7, "seed": 11, "i": 4, "ops": [{"op": "SOLVE", "cfg": {"eps": 1e-8, "conv": [1], "sp2": [False], "uhf": False, "grad": "analytical"}, "start": "cold", "cap": 1000}, {"op": "SOLVE", "cfg": {"eps": 1e-8, "conv": [1], "sp2": [False], "uhf": False, "grad": "semi-numerical"}, "start": "cold", "cap": 1000}]}
         return recs
 
     def shrink_candidates(self, rec):
